@@ -16,6 +16,9 @@ Meaning of the additional Rust constructs, given ONCE here:
 * `for i in lo..hi { body }` is `Rs.R.forRange lo hi body` over the loop-carried variables: `hi - lo` iterations
   (none when `hi ≤ lo`), `i` counting up from `lo`; a `?` inside the body ends the function through the monad.
   `break` / `continue` / a successful `return` inside such a loop are outside the subset.
+* `reader: &mut (impl Read + Seek)` is the device of the monad like `reader: &mut R`;
+  `(reader as &mut dyn Read).take(n)` is the value `Rs.Take.mk n`.
+* `p.cell.store(v)` on an `AtomicU64` field of a structure held by shared reference: see `Rs.Stores`.
 -/
 
 namespace Rs
@@ -71,7 +74,66 @@ end HashMap
 /-- `Arc::new(x)` -/
 @[inline] def Arc.new {α} (x : α) : α := x
 
+/-- `io::Take<&mut dyn Read>` over THE device of the monad: a reader that delivers at most `limit` further bytes
+of it.  (The layers stacked on a `Take` are another translation group; here a `Take` is the value that says how many
+bytes of the device belong to the entry.) -/
+structure Take where
+  limit : UInt64
+  deriving DecidableEq, Repr
+
+/-- The `cell.store(v)` effects a translated function performed on `AtomicU64` cells of structures it only holds by
+shared reference (`data.data_start.store(..)`), in order: place (as written in the source) and value.  They are part of
+the function's value; a function that fails (`Err`) reports none (the cells written by the translated functions are
+only read through handles that exist after a success). -/
+abbrev Stores := List (String × UInt64)
+
+/-- `result::InvalidPassword` -/
+structure InvalidPassword where
+  deriving DecidableEq, Repr
+
+/-! ### The decryption layers as SYMBOLIC values
+
+`make_crypto_reader` decides which layer is put on the entry's `Take`.  The layers themselves (`ZipCryptoReaderValid`,
+`AesReaderValid`) are translated / modelled elsewhere; here a validated layer is the record of what it was built
+from, and what its constructor does to the device - `ZipCryptoReader::new(r, pw).validate(v)` reads the 12-byte
+header, `AesReader::new(r, mode, size).validate(pw)` reads salt and verification value - together with its verdict
+(`Some` = accepted, `None` = wrong password) is an UNINTERPRETED computation `ext.…Validate` of the model's I/O
+monad.  A Tie theorem about a function that takes `ext` holds for every `ext`. -/
+
+/-- `ZipCryptoReaderValid<Take>` as built by `ZipCryptoReader::new(inner, password).validate(validator)` -/
+structure ZcValid (V : Type) where
+  inner : Take
+  password : Bytes
+  validator : V
+
+/-- `AesReaderValid<Take>` as built by `AesReader::new(inner, mode, compressed_size).validate(password)` -/
+structure AesValid (Mo : Type) where
+  inner : Take
+  mode : Mo
+  compressed_size : UInt64
+  password : Bytes
+
+/-- The external constructors: their I/O and their verdict (`true` = `Some(valid reader)`). -/
+structure ReadExt (V Mo : Type) where
+  zcValidate : Take → Bytes → V → M Bool
+  aesValidate : Take → Mo → UInt64 → Bytes → M Bool
+
 namespace R
+variable {V Mo : Type}
+
+/-- `ZipCryptoReader::new(r, pw).validate(v)?` -/
+def zc_validate (ext : ReadExt V Mo) (r : Take) (pw : Bytes) (v : V) : M (Option (ZcValid V)) := do
+  let ok ← ext.zcValidate r pw v
+  pure (if ok then some ⟨r, pw, v⟩ else none)
+
+/-- `AesReader::new(r, mode, size).validate(pw)?` -/
+def aes_validate (ext : ReadExt V Mo) (r : Take) (mode : Mo) (size : UInt64) (pw : Bytes) :
+    M (Option (AesValid Mo)) := do
+  let ok ← ext.aesValidate r mode size pw
+  pure (if ok then some ⟨r, mode, size, pw⟩ else none)
+
+/-- `(reader as &mut dyn Read).take(n)` -/
+def take (n : UInt64) : Take := ⟨n⟩
 
 /-- `n` iterations of a `for` body, the index counting up from `i` -/
 def forN {σ : Type} (body : UInt64 → σ → M σ) : Nat → UInt64 → σ → M σ
